@@ -31,6 +31,51 @@ CLAIMED = {
         'Trusted: as C01. Tracing/colouring are not in the model (checked by the oracle only). The theorem covers non-left-recursive '
         'grammars; left-recursive ones are covered by the correspondence and oracle.',
         '7 C04'),
+    'C03': (
+        'Coq lemmas on the seed-growing loop + correspondence on left-recursive template grammars + independent reference parser',
+        'recursive_call/grow are part of the faithful engine model; proved: the loop returns the last seed of a strictly advancing chain, a grown '
+        'seed is reused without running the body, the re-entrant invocation fails while seeding, left recursion off fails, grammars without '
+        'marked rules are plain PEG (C04 theorem). The property itself (termination, left fold over the longest chain, right recursion '
+        'unaffected, model = generated parser) is decided by differential execution of the model against tatsu on layered template grammars '
+        '(direct, two-alternative, common-prefix, aliased, mutual, optional-prefixed, named, right-mix, unary, two layers; cuts in parentheses) '
+        'and by an independent loop-based reference parser folding to the left.',
+        'Trusted: as C01 plus the reference parser of the check. The left-fold theorem for arbitrary grammars is not proved (partial): the theorems are about the loop.',
+        '7 C03'),
+    'C05': (
+        'Coq proofs of commit and containment laws for cuts + cut-dense differential runs + docs-equivalence oracle',
+        'Proved of the clean semantics, for every grammar/text/frame: an option, optional, closure/join iteration that fails after a cut makes the '
+        'enclosing choice/optional/repetition fail (a join commits after each separator; only a cut makes a closure fail); rule calls, choices, '
+        'optionals, repetitions, lookaheads and skip groups never change the caller cut flag and report failure with the caller flag. Tied by '
+        'differential execution on grammars with cuts inserted after every kind of element and inputs failing right after each lexeme, and by the '
+        'cut-scope equivalences of docs/syntax.rst checked on the implementation.',
+        'Trusted: as C01. Scope decision: a plain group is transparent to cuts.',
+        '7 C05'),
+    'C06': (
+        'Coq proofs about rule invocation with an action oracle + semantics-matrix differential runs',
+        'Proved: what a rule invocation does with its body value (action receives the folded AST, its result replaces it, FailedSemantics = failure '
+        'with the caller cut flag and memoised as a failure, any other exception is the result of the invocation); actions that return their '
+        'argument are indistinguishable from no semantics for every grammar/text (relational induction); @nomemo rules are never stored. Tied by '
+        'running tatsu and the model with semantics objects drawn from {none, identity, tagging, FailedSemantics on a predicate, 8 exception '
+        'classes, constant, _default/methods}, comparing results AND the sequence of action calls; generated parser compared on failures/exceptions.',
+        'Trusted: as C01; BoundCallable signature binding only for the shapes generated. Global propagation of foreign exceptions through every construct is covered by the correspondence, the theorem is at the invocation level. Known finding: StopIteration becomes RuntimeError in generated parsers.',
+        '7 C06'),
+    'C11': (
+        'Coq proofs of the keyword check at rule invocation + keyword grammars differential runs + oracle on bound names',
+        'Proved: a @name rule never succeeds with a keyword (both sides upper-cased under the ignorecase in effect), the rejection is an ordinary failure '
+        'with the caller cut flag, non-keywords are accepted exactly as by the undecorated rule. Tied by differential execution on grammars with '
+        '@@keyword declarations (words, quoted, mixed case) and @name rules in choices, closures, lookaheads x inputs with keywords, prefixes, suffixes, '
+        'case variants x ignorecase by directive and setting; oracle on the values bound to @name results; generated parser; undecorated grammar.',
+        'Trusted: as C01 (upper() is an oracle per character).',
+        '7 C11'),
+    'C13': (
+        'Coq proofs of token/pattern quoting round trips and rail widths + pretty/recompile/fixpoint oracle over generated models',
+        'Proved: unquote(py_repr s) = s for every text without both quote kinds (refutation witness for the rest), the pattern printer/lexer round trip '
+        'under its guard, equal line width of loop/stopnloop/weld for any width function. The property as a whole is decided by an implementation oracle '
+        'over generated grammar models (compiled, JSON-reloaded, constructor-built): pretty() compiles, is a fixpoint, parses sampled inputs to equal ASTs, '
+        'keeps directives/keywords/params/decorators, railroads() completes with equal widths; correspondences tie the quoting and rail models to the code.',
+        'Trusted: Coq kernel, extraction, harness. lay_out/walker-level rail theorem and lexeme-level round trip are not proved (partial). Known findings: '
+        'both-quote tokens, slash+quote patterns, trim() of patterns, empty pattern, constants with newlines/backquotes, unprinted decorators.',
+        '7 C13'),
     'C07': (
         'Coq proofs over node trees (children, parents, walkers, build/erase) + correspondence on real Node trees + parse oracle',
         'Unbounded theorems (structural induction over rose trees): children() = exactly the nodes reachable without crossing another '
